@@ -462,9 +462,46 @@ class Gen:
                     out += self.var(v)
         return bytes(out)
 
-    def cand(self):
+    def ser_sizes(self, s_):
+        """fixed sizes of every layout a serializer class knows (all branches of enum-/length-switched serializers), found by
+        reflection: payloads of a size that fits ANOTHER branch than the one selected are the interesting ones"""
+        cache = self.__dict__.setdefault("_sizes", {})
+        if s_ not in cache:
+            se = self.im.se
+            found = set()
+
+            def visit(o, depth=0):
+                if depth > 3:
+                    return
+                if isinstance(o, dict):
+                    for x in o.values():
+                        visit(x, depth + 1)
+                elif isinstance(o, (list, tuple)):
+                    for x in o:
+                        visit(x, depth + 1)
+                elif isinstance(o, se.SerializableBase):
+                    try:
+                        n = o.calc_size()
+                        if isinstance(n, int) and 0 <= n <= 1400:
+                            found.add(n)
+                    except Exception:
+                        pass
+            for name in dir(s_):
+                if name.startswith("__"):
+                    continue
+                try:
+                    visit(getattr(s_, name))
+                except Exception:
+                    pass
+            cache[s_] = sorted(found)
+        return cache[s_]
+
+    def cand(self, sizes=()):
         rng = self.rng
         n = rng.choice([0, 1, 2, 3, 4, 5, 6, 7, 8, 9, 10, 12, 16, 17, 18, 20, 24, 32, 33, 36, 40, 44, 48, 60, 64, 76, 86, 100, rng.randrange(0, 200)])
+        if sizes and rng.random() < 0.5:
+            n = rng.choice(sizes) + rng.choice((0, 0, 0, 1, -1))
+            n = max(0, n)
         r = rng.random()
         if r < 0.4:
             return bytes(n)
@@ -490,8 +527,9 @@ class Gen:
                     if not s_ or not isinstance(val, bytes):
                         continue
                     fallback = None
+                    sizes = self.ser_sizes(s_)
                     for _ in range(25):
-                        c = self.cand()
+                        c = self.cand(sizes)
                         try:
                             r = s_.deserialize(b, c, pod=True)
                             if r is se.UNSERIALIZABLE or nonfinite(r):
@@ -500,6 +538,8 @@ class Gen:
                             continue
                         if fallback is None:
                             fallback = c
+                            if self.rng.random() < 0.3:
+                                break       # keep an accepted payload as it is, canonical or not (the formatter has to cope)
                         # prefer bytes that are a fixpoint of the codec (canonical encodings)
                         try:
                             c2 = bytes(s_.serialize(b, r))
@@ -557,6 +597,17 @@ def _tmpl_var(im, m, b, k):
     return t.get_block(b.name).get_variable(k)
 
 
+def _packs_back(serializer, block, pretty, v) -> bool:
+    """transcription of HumanMessageSerializer._packs_back: the pretty form is shown only if packing it gives the value back"""
+    try:
+        packed = serializer.serialize(block, pretty)
+    except BaseException:   # noqa
+        return False
+    if isinstance(v, (bytes, bytearray)) or isinstance(packed, (bytes, bytearray)):
+        return isinstance(v, (bytes, bytearray)) and isinstance(packed, (bytes, bytearray)) and bytes(packed) == bytes(v)
+    return packed == v
+
+
 def present(im, msg, block, k, v, replacements, beautify):
     """Transcription of _format_var at the level of the model's [pres]: (kind, lines, orig, pretty)"""
     se, dt = im.se, im.datatypes
@@ -572,7 +623,7 @@ def present(im, msg, block, k, v, replacements, beautify):
     if serializer and beautify:
         try:
             pretty = serializer.deserialize(block, v, pod=True)
-            if pretty is not se.UNSERIALIZABLE:
+            if pretty is not se.UNSERIALIZABLE and _packs_back(serializer, block, pretty, v):
                 plines = im.PP(width=100).pformat(pretty).splitlines()
                 if serializer.AS_HEX and isinstance(v, int):
                     lines = [hex(v)]
@@ -769,13 +820,8 @@ def precondition(im, m, beautify):
                     continue
                 if nonfinite(p):
                     return "nonfinite-packed-float"
-                try:
-                    back = s_.serialize(b, p)
-                except Exception:
-                    return "subfield-codec-not-fixpoint"
-                tv = _tmpl_var(im, m, b, k)
-                if not wire_eq(im, tv, back, v):
-                    return "subfield-codec-not-fixpoint"
+                # (payloads whose pretty form does not pack back to the same bytes are in scope since /repo 5def644: the
+                #  formatter shows them raw)
     return None
 
 
@@ -966,6 +1012,35 @@ def wire_cases(ctx):
     _, wires = load_corpus()
     for w in wires:
         yield "corpus", w
+    # cross-layout family: for every subfield serializer that picks its layout from a sibling enum field, every value of that
+    # field x a payload of the size of EVERY layout the serializer knows (the selected one and all the others, +-1 byte)
+    se = im.se
+    for (mn, bn, vn), s_ in sorted(se.SUBFIELD_SERIALIZERS.items(), key=lambda kv: kv[0]):
+        ef = getattr(s_, "ENUM_FIELD", None)
+        if not ef:
+            continue
+        tmpl = im.TD.get_template_by_name(mn)
+        if tmpl is None:
+            continue
+        sizes = g.ser_sizes(s_)
+        evals = set()
+        for name in dir(s_):
+            v = getattr(s_, name, None)
+            if isinstance(v, dict):
+                for k in v:
+                    if isinstance(k, int):
+                        evals.add(int(k))
+        evals |= {0, 1, 255}
+        for ev in sorted(evals)[:ctx.pick(24, 64)]:
+            for n in sorted({max(0, x + d) for x in sizes for d in (0, 1, -1)})[:ctx.pick(16, 60)]:
+                try:
+                    m = im.decode(g.datagram(tmpl, flags=0, counts=[1] * len(tmpl.blocks)))
+                    blk = m[bn][0]
+                    blk[ef] = ev
+                    blk[vn] = bytes(rng.randrange(1, 255) for _ in range(n)) if rng.random() < 0.7 else bytes(n)
+                    yield "cross-layout", bytes(im.ser.serialize(m)).hex()
+                except Exception as e:  # noqa
+                    yield "genfail:" + type(e).__name__, None
     per = ctx.pick(3, 25)
     keys = {k[0] for k in im.se.SUBFIELD_SERIALIZERS}
     for tmpl in im.templates:
